@@ -93,10 +93,11 @@ def worklist_form(fi, nparam):
         if isinstance(n, ast.Call) and isinstance(n.func, ast.Attribute) and isinstance(n.func.value, ast.Name) and n.func.value.id == work:
             m = n.func.attr
             if m in ("pop", "popleft"):
-                kind = "lifo"
+                # which end the next node is taken from
+                side = "R"
                 if m == "popleft" or (n.args and not (isinstance(n.args[0], ast.UnaryOp) and isinstance(n.args[0].op, ast.USub))):
-                    kind = "fifo"
-                pops.append((n, kind))
+                    side = "L"
+                pops.append((n, side))
             elif m in ("extend", "append", "appendleft", "extendleft", "insert"):
                 pushes.append(n)
     for a in ast.walk(loop):
@@ -104,6 +105,13 @@ def worklist_form(fi, nparam):
             cur = a.targets[0].id
         if isinstance(a, ast.AugAssign) and isinstance(a.target, ast.Name) and a.target.id == work:
             pushes.append(a)
+    # a work list is a stack when nodes are taken from the end they are put on (extend/append <-> pop(), extendleft/appendleft
+    # <-> popleft()); extendleft puts the elements on one by one, so like extend it leaves the LAST element of its argument next
+    def push_side(p_):
+        if isinstance(p_, ast.AugAssign):
+            return "R"
+        return "L" if p_.func.attr in ("appendleft", "extendleft") or (p_.func.attr == "insert" and p_.args and norm(p_.args[0]) == "0") else "R"
+    pops = [(c, "lifo" if all(push_side(p_) == side for p_ in pushes) else "fifo") for (c, side) in pops]
     return {"loop": loop, "work": work, "cur": cur, "pops": pops, "pushes": pushes}
 
 
@@ -147,7 +155,7 @@ def check_worklist(ctx, rep, fi, wl, node_calls, nparam, mp, meta):
         rep.add("R1", fi.qname, lp.test, f"work-list walk with {len(pushes)} push sites: coverage and order of the children cannot be established", fi.loc(lp))
         return
     p = pushes[0]
-    seq = p.value if isinstance(p, ast.AugAssign) else (p.args[0] if p.args and p.func.attr in ("extend",) else None)
+    seq = p.value if isinstance(p, ast.AugAssign) else (p.args[0] if p.args and p.func.attr in ("extend", "extendleft") else None)
     r = pushed(seq) if seq is not None else None
     ok = r is not None and isinstance(r[0], ast.Name) and r[0].id == cur
     rep.oblige(("R1", "iterable", "worklist"), ok)
